@@ -32,3 +32,37 @@ Print Assumptions C07_iroas_is_response_over_cost.
 Print Assumptions C07_incremental_response_bounds_are_iroas_bounds_times_cost.
 Print Assumptions C07_unit_change.
 Print Assumptions C07_negative_cost_refuted.
+
+(* ---- the scenario label.  TBRiROAS._is_fixed_cost_scenario and utils.float_order are regenerated from the source on every
+   run (gen/Gen_Scenario.v) over a frame of (group, period, cost) rows; over the rationals, with numeric oracles of which
+   only "floor(log10 a) < -10 iff a < 1e-10" and "-inf < -10" are assumed: the label is "fixed" exactly when the pre-period
+   cost (of all groups) plus the control group's test-period cost is below 1e-10 in absolute value; all those costs being
+   zero gives "fixed"; and with non-negative costs "fixed" bounds each of them by 1e-10 *)
+From Coq Require Import List ZArith Qabs.
+From MM Require Import lib.Values model.CostFrame gen.Gen_Scenario proofs.FormulasBridge proofs.ScenarioBridge.
+Theorem C07_translated_label_is_fixed_iff_non_incremental_cost_is_negligible :
+  forall (floor_log10 : Q -> Q) (neg_inf : Q),
+    (forall a, 0 < a -> (floor_log10 a < inject_Z (-10) <-> a < tiny)) -> neg_inf < inject_Z (-10) ->
+    forall adata pre test control,
+      gen_is_fixed_cost_scenario QOps Qabs floor_log10 neg_inf adata pre test control = true
+      <-> Qabs (non_incremental_cost adata pre test control) < tiny.
+Proof. exact gen_fixed_cost_iff. Qed.
+Theorem C07_translated_zero_costs_give_the_fixed_label :
+  forall (floor_log10 : Q -> Q) (neg_inf : Q),
+    (forall a, 0 < a -> (floor_log10 a < inject_Z (-10) <-> a < tiny)) -> neg_inf < inject_Z (-10) ->
+    forall adata pre test control,
+      (forall r, In r adata -> c_period r = pre -> c_cost r == 0) ->
+      (forall r, In r adata -> c_period r = test -> c_group r = control -> c_cost r == 0) ->
+      gen_is_fixed_cost_scenario QOps Qabs floor_log10 neg_inf adata pre test control = true.
+Proof. exact zero_costs_give_fixed. Qed.
+Theorem C07_translated_fixed_label_bounds_every_non_incremental_cost :
+  forall (floor_log10 : Q -> Q) (neg_inf : Q),
+    (forall a, 0 < a -> (floor_log10 a < inject_Z (-10) <-> a < tiny)) -> neg_inf < inject_Z (-10) ->
+    forall adata pre test control,
+      (forall r, In r adata -> 0 <= c_cost r) ->
+      gen_is_fixed_cost_scenario QOps Qabs floor_log10 neg_inf adata pre test control = true ->
+      (forall r, In r adata -> c_period r = pre -> c_cost r < tiny) /\
+      (forall r, In r adata -> c_period r = test -> c_group r = control -> c_cost r < tiny).
+Proof. exact fixed_bounds_every_cost. Qed.
+Print Assumptions C07_translated_label_is_fixed_iff_non_incremental_cost_is_negligible.
+Print Assumptions C07_translated_fixed_label_bounds_every_non_incremental_cost.
